@@ -37,6 +37,9 @@ type c06Params struct {
 	Keys int
 	// NoNL: the last line of every file has no terminating newline
 	NoNL bool
+	// Malformed: the files are in the default log format (table T) and hold, after their first and before their last
+	// line, a line the parser rejects with an error (a key-value token without '='); it contributes nothing
+	Malformed bool
 }
 
 func (p c06Params) String() string {
@@ -50,6 +53,9 @@ func (p c06Params) String() string {
 	if p.NoNL {
 		s += " last-line-unterminated"
 	}
+	if p.Malformed {
+		s += " +lines-the-parser-rejects"
+	}
 	return s
 }
 
@@ -61,6 +67,11 @@ func c06Setup(p c06Params) (what string, perKey map[string][2]float64) {
 	if p.NoNL {
 		dir += "-nonl"
 	}
+	prefix := ""
+	if p.Malformed {
+		dir += "-malformed"
+		prefix = "INFO|20211002-071209|1|f.go:1|8|10|0|0.1|1h|MAPREDUCE:T|"
+	}
 	perKey = map[string][2]float64{}
 	var paths []string
 	for f, n := range p.Files {
@@ -71,7 +82,10 @@ func c06Setup(p c06Params) (what string, perKey map[string][2]float64) {
 				k = fmt.Sprintf("k%03d", (f*7+l)%p.Keys)
 			}
 			v := float64(f*10 + l)
-			sb.WriteString(fmt.Sprintf("k=%s|v=%v\n", k, v))
+			if p.Malformed && (l == 2 || l == n) {
+				sb.WriteString(prefix + "k=" + k + "|broken token without an equals sign\n")
+			}
+			sb.WriteString(fmt.Sprintf("%sk=%s|v=%v\n", prefix, k, v))
 			e := perKey[k]
 			e[0] += float64(p.Servers)
 			e[1] += v * float64(p.Servers)
@@ -123,6 +137,9 @@ func c06Scenario(p c06Params, idx int) *explore.Scenario {
 			args.What = what
 			args.ServersStr = strings.Join(servers, ",")
 			args.QueryStr = "select k,count($line),sum(v) group by k outfile " + outfile + " logformat generickv"
+			if p.Malformed {
+				args.QueryStr = "select k,count(k),sum(v) from T group by k outfile " + outfile
+			}
 			if p.Interval > 0 {
 				args.QueryStr += fmt.Sprintf(" interval %d", p.Interval)
 			}
@@ -262,6 +279,8 @@ func c06Sig(msg string, v *explore.Violation) string {
 	switch {
 	case strings.HasPrefix(msg, "[session-shutdown-began"):
 		return "session-shutdown-began-before-all-commands-were-received"
+	case strings.HasPrefix(msg, "pool:"):
+		return "pooled-object-returned-twice"
 	case strings.HasPrefix(msg, "deadlock"):
 		return "deadlock"
 	case strings.HasPrefix(msg, "horizon"):
@@ -292,10 +311,13 @@ func c06ParamSets(tier string) (ps []c06Params, d int) {
 			{Servers: 1, Files: []int{2, 1}, CatLimit: 2, ReadDelayMs: 3100, NoNL: true},
 			{Servers: 2, Files: []int{3}, CatLimit: 1, ReadDelayMs: 1600, NoNL: true},
 			{Servers: 1, Files: []int{1, 2}, CatLimit: 1, Glob: true, NoNL: true},
+			{Servers: 1, Files: []int{3, 2}, CatLimit: 2, Malformed: true},
+			{Servers: 2, Files: []int{4}, CatLimit: 1, Malformed: true},
 			{Servers: 1, Files: []int{2}, CatLimit: 2, D: 2},
 			{Servers: 1, Files: []int{1, 1}, CatLimit: 1, Glob: true, D: 2},
 		}, 1
 	}
+	ps = append(ps, c06Params{Servers: 1, Files: []int{3, 2}, CatLimit: 2, Malformed: true, D: 1}, c06Params{Servers: 2, Files: []int{4}, CatLimit: 1, Malformed: true, D: 1}, c06Params{Servers: 1, Files: []int{2, 2, 3}, CatLimit: 2, Glob: true, Malformed: true, D: 1})
 	for _, rd := range []int{0, 1600, 3100} {
 		ps = append(ps, c06Params{Servers: 1, Files: []int{2, 1}, CatLimit: 2, ReadDelayMs: rd, NoNL: true, D: 1}, c06Params{Servers: 2, Files: []int{3}, CatLimit: 1, ReadDelayMs: rd, NoNL: true, D: 1},
 			c06Params{Servers: 1, Files: []int{1, 2}, CatLimit: 1, Glob: true, ReadDelayMs: rd, NoNL: true, D: 1})
@@ -325,7 +347,7 @@ func init() {
 		ID:    "C06",
 		Level: "model_checking",
 		Rule: "stateless exploration of all schedules within a deviation bound (quick 1, thorough 2) of a complete dmap run: the real MaprClient (cumulative, outfile), one in-process server per entry of the server list (Serverless connector, " +
-			"ServerHandler, map command, read commands behind the cat limiter, server Aggregate), the per-server client MaprHandlers, the GlobalGroupSet and the periodic reporter; 1-3 servers x 1-3 files x 0-2 lines (and files of 20-35 lines over 25-30 group keys: more groups than the server's message queue holds), cat limit 1-2, one glob or one command per file, files whose last line is unterminated (also on a disk that takes 1.6-3.1 s per read(2), so that the end of the file coincides with the reader's periodic checks); " +
+			"ServerHandler, map command, read commands behind the cat limiter, server Aggregate), the per-server client MaprHandlers, the GlobalGroupSet and the periodic reporter; 1-3 servers x 1-3 files x 0-2 lines (and files of 20-35 lines over 25-30 group keys: more groups than the server's message queue holds), cat limit 1-2, one glob or one command per file, files in the default log format that hold lines the parser rejects with an error, files whose last line is unterminated (also on a disk that takes 1.6-3.1 s per read(2), so that the end of the file coincides with the reader's periodic checks); " +
 			"oracle: final count and sum per key == totals over all files of all servers, exit status 0, termination before the horizon; plus the client side alone (two servers' handlers, periodic reporter, final report) under all schedules within 2 deviations: every partial result counted exactly once in the final result; distinct = distinct (scenario, result) pairs",
 		Assumptions: []string{
 			"code between two synchronisation operations is atomic (data-race freedom; checked by the free-running -race pass)",
